@@ -10,10 +10,10 @@ import (
 )
 
 var (
-	LitRunes   = []rune{'a', 'b', 'c', '0', '9', ' ', '-', '_', '"', '\'', '.', '*', '(', ')', '[', ']', '{', '}', '|', '?', '+', '$', '^', '\\', '/', ',', ':', 'A', 'F', 0xE9, 0x4E2D}
+	LitRunes   = []rune{'a', 'b', 'c', '0', '9', ' ', '-', '_', '"', '\'', '.', '*', '(', ')', '[', ']', '{', '}', '|', '?', '+', '$', '^', '\\', '/', ',', ':', 'A', 'F', 0xE9, 0x4E2D, 0xEEEE, 0xFFFD}
 	Classes    = []string{`\d`, `\D`, `\s`, `\S`, `\w`, `\W`}
 	Posix      = []string{"[:blank:]", "[:space:]", "[:digit:]", "[:xdigit:]", "[:upper:]", "[:lower:]", "[:alpha:]", "[:alnum:]", "[:word:]", "[:ascii:]"}
-	brackRunes = []rune{'a', 'b', 'z', '0', '_', ']', '^', '\\', '-', ' ', 0xE9, 0x100}
+	brackRunes = []rune{'a', 'b', 'z', '0', '_', ']', '^', '\\', '-', ' ', 0xE9, 0x100, 0xEEEE}
 )
 
 // Quant fills the quantifier fields of q from a form index (0..5) and two small numbers.
@@ -225,6 +225,17 @@ func SingleConstructs() []*ref.Pat {
 		if r < 0xFF {
 			out = append(out, &ref.Pat{K: "br", Items: []*ref.Pat{{K: "rng", R: r, R2: 0xFF, Spell: 2}}})
 		}
+	}
+	// the private-use character U+EEEE (the direct construction uses it as its end-marker) and its neighbours
+	for _, p := range []*ref.Pat{
+		{K: "lit", R: 0xEEEE},
+		{K: "cat", Subs: []*ref.Pat{{K: "lit", R: 'a'}, {K: "lit", R: 0xEEEE}, {K: "lit", R: 'b'}}},
+		{K: "q", QForm: "+", Min: 1, Max: -1, Subs: []*ref.Pat{{K: "br", Items: []*ref.Pat{{K: "rng", R: 0xEEED, R2: 0xEEEF}}}}},
+		{K: "cat", Subs: []*ref.Pat{{K: "q", QForm: "*", Min: 0, Max: -1, Subs: []*ref.Pat{{K: "lit", R: 0xEEEE}}}, {K: "lit", R: 'x'}}},
+		{K: "alt", Subs: []*ref.Pat{{K: "lit", R: 0xEEEE}, {K: "lit", R: 0xEEEF}}},
+		{K: "br", Neg: true, Items: []*ref.Pat{{K: "lit", R: 0xEEEE}}},
+	} {
+		out = append(out, p)
 	}
 	for _, r := range []rune{0x41, 0x7F, 0x80, 0xE9, 0xFF, 0x100, 0xFFFF, 0x4E2D, 0x10000, 0x1F600, 0x10FFFF} {
 		out = append(out, &ref.Pat{K: "lit", R: r, Spell: 4}, &ref.Pat{K: "lit", R: r, Spell: 8})
